@@ -66,6 +66,15 @@ def Reshape_variable(
     return FeArray.broadcast(variable, Ne, nPg, 2 if np.ndim(variable) == 3 else 0)
 
 
+def Check_Heterogeneous_Parameters(*params) -> None:
+    """Checks that the material constants given as arrays have the same dimension: (Ne,) or (Ne, nPg).\n
+    Mixed with an (Ne, nPg) array, an (Ne,) array would be aligned with the gauss points.
+    """
+    # () and (1,) arrays hold a single value and behave as scalars
+    ndims = {np.ndim(p) for p in params if np.shape(p) not in [(), (1,)]}
+    assert len(ndims) <= 1, __erroDim
+
+
 def Heterogeneous_Array(array: _types.FloatArray):
     """Builds a heterogeneous array."""
 
